@@ -74,6 +74,7 @@ type stepClock struct {
 	ring     [16]int32
 	rp       int
 	log      *Fingerprint
+	exSite   int32 // site at which the budget was exceeded
 }
 
 var clock stepClock
@@ -87,6 +88,7 @@ func clockStep(site int32) {
 	clock.rp++
 	if clock.budget != 0 && clock.steps > clock.budget && !clock.exceeded {
 		clock.exceeded = true
+		clock.exSite = site
 		panic(budgetSentinel{})
 	}
 }
